@@ -66,25 +66,39 @@ Proof. exact combined_ident_injective_refuted. Qed.
 
 (* ---- (b) determinism: the generics partition and the PhantomData fields do not depend on the HashMap order ---- *)
 
-Theorem C06_generics_spec : forall params ms hm0, Permutation hm0 (filter nonconst params) ->
-  impl_gen params hm0 ms = spec_gen params ms.
+(* self_ty = tokens of the impl's self type: process_met substitutes `Self` by it before GenWork::retain looks at the signature *)
+Theorem C06_generics_spec : forall self_ty params ms hm0, Permutation hm0 (filter nonconst params) ->
+  impl_gen params self_ty hm0 ms = spec_gen params self_ty ms.
 Proof. exact impl_gen_spec. Qed.
 
-Theorem C06_generics_deterministic : forall params ms hm1 hm2,
+Theorem C06_generics_deterministic : forall self_ty params ms hm1 hm2,
   Permutation hm1 (filter nonconst params) -> Permutation hm2 (filter nonconst params) ->
-  impl_gen params hm1 ms = impl_gen params hm2 ms.
+  impl_gen params self_ty hm1 ms = impl_gen params self_ty hm2 ms.
 Proof. exact impl_gen_deterministic. Qed.
 
-Theorem C06_phantom_fields_in_declaration_order : forall params ms,
-  let g := spec_gen params ms in
+Theorem C06_phantom_fields_in_declaration_order : forall self_ty params ms,
+  let g := spec_gen params self_ty ms in
   map snd (mg_phantom g) = mg_private g /\ map fst (mg_phantom g) = seq 0 (List.length (mg_private g)) /\
-  (full ms = false -> mg_private g = map gp_name (filter (fun p => mem_name (gp_name p) (unused params ms)) params)).
+  (full ms = false -> mg_private g = map gp_name (filter (fun p => mem_name (gp_name p) (unused params self_ty ms)) params)).
 Proof. exact phantom_fields_in_declaration_order. Qed.
+
+(* a `Self` in the signature of a selected &self / &mut self method without own generics is a use of every parameter named by the
+   impl's self type: that parameter is never private (no PhantomData field) and is a parameter of the Script enum *)
+Theorem C06_self_counts_as_use : forall self_ty params ms m p,
+  In m ms -> m_kind m = MRef -> m_localgen m = false -> In "Self"%string (m_sig m) -> In (gp_name p) self_ty -> full ms = false ->
+  ~ In (gp_name p) (mg_private (spec_gen params self_ty ms)) /\
+  (In p params -> In (gp_name p) (mg_script (spec_gen params self_ty ms))).
+Proof. exact self_counts_as_use. Qed.
+
+(* retaining before the substitution (statements of process_met swapped) gives another partition: witness impl<T> A<T> { fn absorb(&mut self, other: Self) } *)
+Theorem C06_retain_before_substitution_differs : exists params self_ty ms hm,
+  Permutation hm (filter nonconst params) /\ impl_gen_retain_first params hm ms <> impl_gen params self_ty hm ms.
+Proof. exact retain_before_substitution_differs. Qed.
 
 (* the code before fix fdc5b8f (fields enumerated in map order) fails the same statement: defect F2 *)
 Theorem C06_old_code_order_dependent : exists params ms hm1 hm2,
   Permutation hm1 (filter nonconst params) /\ Permutation hm2 (filter nonconst params) /\
-  impl_gen_old params hm1 ms <> impl_gen_old params hm2 ms.
+  impl_gen_old params [] hm1 ms <> impl_gen_old params [] hm2 ms.
 Proof. exact impl_gen_old_order_dependent. Qed.
 
 Print Assumptions C06_legal_is_ascii.
@@ -101,4 +115,6 @@ Print Assumptions C06_combined_ident_injective_refuted.
 Print Assumptions C06_generics_spec.
 Print Assumptions C06_generics_deterministic.
 Print Assumptions C06_phantom_fields_in_declaration_order.
+Print Assumptions C06_self_counts_as_use.
+Print Assumptions C06_retain_before_substitution_differs.
 Print Assumptions C06_old_code_order_dependent.
